@@ -1,6 +1,7 @@
 # SPDX-License-Identifier: MIT
 import math
 from dataclasses import dataclass
+from fractions import Fraction
 from typing import Optional, Union
 
 from ..exceptions import EncodeError, odxraise, odxrequire
@@ -76,10 +77,23 @@ class LinearSegment:
     def __post_init__(self) -> None:
         self.__compute_physical_limits()
 
+    def __is_integral(self) -> bool:
+        """True iff the segment maps integers to integers using integer coefficients"""
+        int_types = [DataType.A_INT32, DataType.A_UINT32]
+        return self.internal_type in int_types and self.physical_type in int_types and all(
+            float(x).is_integer() for x in (self.offset, self.factor, self.denominator))
+
     def convert_internal_to_physical(self, internal_value: AtomicOdxType) -> Union[float, int]:
         if not isinstance(internal_value, (int, float)):
             odxraise(f"Internal values of linear compumethods must "
                      f"either be int or float (is: {type(internal_value).__name__})")
+
+        if isinstance(internal_value, int) and self.__is_integral():
+            # use exact arithmetic: floating point numbers cannot
+            # represent all integers beyond 2^53
+            return round(
+                Fraction(
+                    int(self.offset) + int(self.factor) * internal_value, int(self.denominator)))
 
         result = (self.offset + self.factor * internal_value) / self.denominator
 
@@ -99,6 +113,13 @@ class LinearSegment:
         if abs(self.factor) < 1e-10:
             # "If factor = 0 then COMPU-INVERSE-VALUE shall be specified.
             return self.inverse_value
+
+        if isinstance(physical_value, int) and self.__is_integral():
+            # use exact arithmetic: floating point numbers cannot
+            # represent all integers beyond 2^53
+            return round(
+                Fraction(physical_value * int(self.denominator) - int(self.offset),
+                         int(self.factor)))
 
         result = (physical_value * self.denominator - self.offset) / self.factor
 
